@@ -728,11 +728,26 @@ func (n *network) connect(name gen.Atom, route gen.NetworkRoute) (gen.Connection
 			Config:    tlsconfig,
 		}
 		dial = tlsdialer.Dial
+		if vd := lib.VerifDialer(); vd != nil {
+			// simulated transport: TLS on top of the simulated connection
+			dial = func(network, addr string) (net.Conn, error) {
+				c, err := vd(network, addr)
+				if err != nil {
+					return nil, err
+				}
+				tc := tls.Client(c, tlsconfig)
+				if err := tc.Handshake(); err != nil {
+					c.Close()
+					return nil, err
+				}
+				return tc, nil
+			}
+		}
 	} else {
 		dial = dialer.Dial
-	}
-	if vd := lib.VerifDialer(); vd != nil {
-		dial = vd
+		if vd := lib.VerifDialer(); vd != nil {
+			dial = vd
+		}
 	}
 	dsn := net.JoinHostPort(route.Route.Host, strconv.Itoa(int(route.Route.Port)))
 	conn, err := dial("tcp", dsn)
